@@ -150,6 +150,14 @@ pub async fn run_case(case: Vec<String>) -> String {
                 "close" => {
                     peer = None;
                 }
+                "bighead" => {
+                    // a head that passes the 4096 byte limit inside ONE line that is not terminated yet (also: folded): a framing error
+                    if let Some(io) = peer.as_mut() {
+                        let mut m = b"OPTIONS sip:me@10.0.0.1 SIP/2.0\r\nVia: SIP/2.0/TCP 10.9.9.9:5060;branch=z9hG4bKbig\r\nSubject: ".to_vec();
+                        m.extend(std::iter::repeat(b'a').take(6000));
+                        io.write_all(&m).await.ok();
+                    }
+                }
                 "garbage" => {
                     if let Some(io) = peer.as_mut() {
                         io.write_all(b"\x01\x02 this is not sip\r\n\r\n").await.ok();
